@@ -123,6 +123,16 @@ def _mc(rep, module, cfg_text, label, bounds, **kw):
     return res
 
 
+def _guard(classify=None):
+    """A trace rejected on an environment-assumption clause (env_*) is a harness / stimulus error, never a violation."""
+    def f(trace, matched, status, meta):
+        if str(status).startswith("env_"):
+            raise tlc.TLCError("stimulus left the specification's Env (clause %s at step %s, %s): harness error, "
+                               "not a property violation" % (status, matched, meta))
+        return classify(trace, matched, status, meta) if classify else {"clause": status, "pattern": "other"}
+    return f
+
+
 def tla_set(xs):
     return "{%s}" % ", ".join(str(int(x)) for x in xs)
 
@@ -167,6 +177,23 @@ class StepSim:
             self.sim.reset()
         self._first = False
         self.sim.run()
+
+
+def with_ss_domain(dut):
+    """Wrap a DUT so that the reset of its clock domain ("ss") can be driven: returns (top, reset signal)."""
+    from amaranth import Module, Elaboratable, ClockDomain
+
+    class Top(Elaboratable):
+        def __init__(self):
+            self.cd = ClockDomain("ss")
+
+        def elaborate(self, platform):
+            m = Module()
+            m.domains.ss = self.cd
+            m.submodules.dut = dut
+            return m
+    top = Top()
+    return top, top.cd.rst
 
 
 def set_word(ctx, stream, w):
@@ -420,7 +447,7 @@ def check_C35(rep):
         add(stim, [], "random-words")
 
     cfg = _cfg("LinkCommandTrace.cfg.tmpl")
-    validate_group(rep, SPEC_DIR, "LinkCommandTrace", cfg, items, classify=classify_lc,
+    validate_group(rep, SPEC_DIR, "LinkCommandTrace", cfg, items, classify=_guard(classify_lc),
                    what_prefix="LinkCommandGenerator/Detector ")
     reported = sum(1 for t, _ in items for r in t if r["nc"])
     rep.notes.append("commands reported by the real detector in validated traces: %d; generator words captured for "
@@ -640,8 +667,9 @@ class StackTxBench:
     """DataPacketTransmitter -> PacketTransmitter (with its RawPacketTransmitter), link partner side played by a
     real LinkCommandGenerator (sequence advertisement + credits); round trip as in RawTxBench."""
 
-    def __init__(self):
+    def __init__(self, buffer_count=4, ss_clock_frequency=125e6):
         use_repo()
+        self.buffer_count = buffer_count
         from amaranth import Module, Elaboratable
         from luna.gateware.usb.usb3.link.transmitter import PacketTransmitter
         from luna.gateware.usb.usb3.link.data import DataPacketTransmitter
@@ -649,7 +677,7 @@ class StackTxBench:
 
         class Top(Elaboratable):
             def __init__(self):
-                self.ptx = PacketTransmitter()
+                self.ptx = PacketTransmitter(buffer_count=buffer_count, ss_clock_frequency=ss_clock_frequency)
                 self.dptx = DataPacketTransmitter()
                 self.lcg = LinkCommandGenerator()
 
@@ -698,8 +726,8 @@ class StackTxBench:
             ctx.set(ptx.enable, 1)
             ctx.set(ptx.source.ready, 1)
             await link_command(0, advertised_seq)          # LGOOD_n: header sequence number advertisement
-            for c in range(4):
-                await link_command(1, c)                   # LCRD_A..D
+            for c in range(self.buffer_count):
+                await link_command(1, c)                   # LCRD_A.. (one credit per buffer)
             for pk in packets:
                 pl, prm = pk["pl"], pk["params"]
                 ctx.set(dptx.address, prm["addr"])
@@ -720,6 +748,12 @@ class StackTxBench:
                     rdy = bool(pk["rdy"](n))
                     ctx.set(ptx.source.ready, int(rdy))
                     ctx.set(dptx.send_zlp, int(not pl and n == 0))
+                    if pk.get("pwiggle") is not None and n == 1 + pk["pwiggle"]:
+                        # the packet's parameters are those present when the stream went valid; they may change afterwards
+                        ctx.set(dptx.endpoint_number, (prm["ep"] + 5) % 16)
+                        ctx.set(dptx.sequence_number, (prm["dseq"] + 9) % 32)
+                        ctx.set(dptx.data_length, (prm["len"] + 3) % 1025)
+                        ctx.set(dptx.direction, 1 - prm["dir"])
                     if wi < len(words):
                         m_, d_, last_ = words[wi]
                         ctx.set(dptx.data_sink.valid, m_)
@@ -866,23 +900,27 @@ def check_C36(rep):
         run_raw(packets[i:i + 6], "header-input-changes")
 
     # the stack DataPacketTransmitter -> PacketTransmitter
-    stack = StackTxBench()
+    # PacketTransmitter parameters: buffer_count 4 (USB3) and, rotated by seed, 2 / 8 / 3; another ss_clock_frequency
+    stack_cfgs = [(4, 125e6)] + ([[(2, 60e6)], [(8, 125e6)], [(3, 1e6)]][rep.seed % 3] if quick else [(2, 60e6), (8, 125e6), (3, 1e6)])
     for rep_i in range(2 if quick else 8):
-        lens = [rng.randrange(0, 4), rng.randrange(4, 8), rng.choice([8, 9, 10, 11, 16, 33]), rng.randrange(1, 13)]
+        bc, fq = stack_cfgs[rep_i % len(stack_cfgs)]
+        stack = StackTxBench(buffer_count=bc, ss_clock_frequency=fq)
+        lens = [rng.randrange(0, 4), rng.randrange(4, 8), rng.choice([8, 9, 10, 11, 16, 33]), rng.randrange(1, 13)][:bc]
         rng.shuffle(lens)
         packets = []
         for n in lens:
             packets.append({"pl": [rng.getrandbits(8) for _ in range(n)], "rdy": rdy_pattern(rng), "gap": rng.randrange(3),
+                            "pwiggle": rng.choice([None, 0, 1, 2, 4]),
                             "params": {"addr": rng.randrange(128), "ep": rng.randrange(16), "dseq": rng.randrange(32),
                                        "len": n, "dir": rng.randrange(2)}})
-            rep.nontriv(("stack", 8, n % 4, n, 0))
+            rep.nontriv(("stack", bc, 8, n % 4, n, 0))
         recs = resolve_rx(stack.run(packets, advertised_seq=rng.randrange(8)), rxb)
         rep.add_eval(sum(1 for r in recs if r["e"] == "cyc"))
-        items.append((recs, {"dut": "DataPacketTransmitter+PacketTransmitter", "origin": "random"}))
+        items.append((recs, {"dut": "DataPacketTransmitter+PacketTransmitter", "buffer_count": bc, "origin": "random"}))
 
     rep.add_eval(rxb.cycles)
     # several TLC invocations, each far below the timeout (long payloads are costly in TLC)
-    validate_group(rep, SPEC_DIR, "PacketTxTrace", _cfg("PacketTxTrace.cfg.tmpl"), items, classify=classify_tx,
+    validate_group(rep, SPEC_DIR, "PacketTxTrace", _cfg("PacketTxTrace.cfg.tmpl"), items, classify=_guard(classify_tx),
                    chunk=400 if quick else 40, timeout=1800)
     nrx = sum(1 for t, _ in items for r in t if r["e"] == "rx")
     ngood = sum(1 for t, _ in items for r in t if r["e"] == "rx" and r["dp_reports"][:1] == ["good"])
@@ -1001,19 +1039,21 @@ class DataRxBench:
         use_repo()
         from luna.gateware.usb.usb3.link.data import DataPacketReceiver
         self.dut = DataPacketReceiver()
-        self.sim = StepSim(self.dut)
+        top, self.rst = with_ss_domain(self.dut)
+        self.sim = StepSim(top)
 
-    def run(self, stream, stop_at_first_good=False):
+    def run(self, stream, stop_at_first_good=False, reset_at=()):
         dut = self.dut
         recs = []
 
         async def bench(ctx):
-            for w in stream:
+            for i, w in enumerate(stream):
+                ctx.set(self.rst, int(i in reset_at))
                 set_word(ctx, dut.sink, w)
                 sv = ctx.get(dut.source.valid)
                 sd = ctx.get(dut.source.data)
                 r = {"iw": w, "good": bool(ctx.get(dut.packet_good)), "bad": bool(ctx.get(dut.packet_bad)),
-                     "sv": sv, "sd": bytes_le(sd, 4)}
+                     "sv": sv, "sd": bytes_le(sd, 4), "rst": i in reset_at}
                 recs.append(r)
                 if stop_at_first_good and r["good"]:
                     break
@@ -1172,6 +1212,15 @@ def check_C40(rep):
                 witness.append((recs, {"class": "pairs", "origin": "%s(len %d)->good->good mode %d" % (name, n, mode)}))
                 rep.nontriv(("pair", name, n % 4, mode, sum(r["good"] for r in recs), sum(r["bad"] for r in recs)))
 
+    # clock-domain reset at a sweep offset of a three-packet history: the packet in progress is forgotten (no report
+    # owed for it), everything after the reset is received as from power-up
+    for k in range(12 if quick else 60):
+        pks = [{"len": rng.randrange(0, 13), "c32": rng.random() < 0.7, "follow": rng.choice(follows)} for _ in range(3)]
+        st = rx_stream(rng, pks, rng.choice([0.0, 0.2]), False)
+        recs = bench.run(st, reset_at={rng.randrange(1, len(st) - 8)})
+        rep.add_eval(len(recs))
+        witness.append((recs, {"class": "reset", "origin": "domain-reset-mid-stream"}))
+
     # boundary lengths up to the maximum packet size (1024): good and corrupted CRC-32, with / without not-valid
     # words, each followed by a short good packet  (TLC's bit-serial CRC-32 costs a few ms per byte: four in quick, more in thorough)
     big = [(1024, True, 0.0), (1024, False, 0.05), (1023, True, 0.05), (1021, True, 0.0)]
@@ -1190,8 +1239,8 @@ def check_C40(rep):
         run(None, 0.0, True, "witness-tlc", "tlc-simulate", stream=st)
 
     cfg = _cfg("DataRxTrace.cfg.tmpl")
-    validate_group(rep, SPEC_DIR, "DataRxTrace", cfg, clean, classify=classify_rx, what_prefix="DataPacketReceiver (clean stimuli) ")
-    validate_group(rep, SPEC_DIR, "DataRxTrace", cfg, witness, classify=classify_rx, what_prefix="DataPacketReceiver ")
+    validate_group(rep, SPEC_DIR, "DataRxTrace", cfg, clean, classify=_guard(classify_rx), what_prefix="DataPacketReceiver (clean stimuli) ")
+    validate_group(rep, SPEC_DIR, "DataRxTrace", cfg, witness, classify=_guard(classify_rx), what_prefix="DataPacketReceiver ")
     rep.notes.append("clean traces: %d, witness traces: %d" % (len(clean), len(witness)))
     if clean:
         rep.sample({"class": "clean", "first_records": clean[0][0][:8]})
@@ -1274,7 +1323,62 @@ class TsBench:
         return recs
 
 
-EM_IDLE = {"start": False, "rdy": True, "hr": False, "lb": False, "ns": False}
+class TsTransceiverBench:
+    """The real TSTransceiver (TSEQ / TS1 / inverted TS1 / TS2 detectors and the three emitters as the library wires
+    them).  One run gives one trace per detector (its own view of the common sink); with `loop` the word stream is
+    what the transceiver itself emits for the selected burst."""
+    VIEWS = [("TSEQWords", "tseq_detected", 32), ("TS1Words", "ts1_detected", 8), ("TS1InvWords", "inverted_ts1_detected", 8),
+             ("TS2Words", "ts2_detected", 8)]
+
+    class _View:        # what ts_words / ts_detector_stream need to know about a set
+        def __init__(self, set_name):
+            use_repo()
+            from luna.gateware.usb.usb3.link import ordered_sets as osets
+            data_name, self.ctrl, self.has_cfg = TS_SETS[set_name]
+            self.set_words = [word(d, self.ctrl if k == 0 else 0) for k, d in enumerate(getattr(osets, data_name))]
+
+    def __init__(self):
+        use_repo()
+        from luna.gateware.usb.usb3.link.ordered_sets import TSTransceiver
+        self.dut = TSTransceiver()
+        top, self.rst = with_ss_domain(self.dut)
+        self.sim = StepSim(top)
+        self.views = {name: self._View(name) for name, _, _ in self.VIEWS}
+
+    def run(self, stim):
+        """stim: per-cycle dicts: iw (word for the sink) or loop=('tseq'|'ts1'|'ts2', hr, lb, ns) to send a burst and
+        feed the emitted words back; rdy."""
+        dut = self.dut
+        traces = {name: [] for name, _, _ in self.VIEWS}
+
+        async def bench(ctx):
+            for st in stim:
+                lp = st.get("loop")
+                for k in ("tseq", "ts1", "ts2"):
+                    ctx.set(getattr(dut, "send_%s_burst" % k), int(bool(lp) and lp[0] == k))
+                if lp:
+                    ctx.set(dut.request_hot_reset, int(lp[1]))
+                    ctx.set(dut.request_loopback, int(lp[2]))
+                    ctx.set(dut.request_no_scrambling, int(lp[3]))
+                ctx.set(dut.source.ready, int(st.get("rdy", True)))
+                if lp:
+                    ow = get_word(ctx, dut.source)
+                    iw = dict(ow, v=bool(ow["v"] and st.get("rdy", True)))
+                else:
+                    iw = st.get("iw", NOWORD)
+                set_word(ctx, dut.sink, iw)
+                for name, sig, _ in self.VIEWS:
+                    cfgv = name == "TS2Words"
+                    traces[name].append(dict(EM_IDLE, ow=NOWORD, done=False, iw=iw, det=bool(ctx.get(getattr(dut, sig))),
+                                             dhr=bool(ctx.get(dut.hot_reset_requested)) if cfgv else False,
+                                             dlb=bool(ctx.get(dut.loopback_requested)) if cfgv else False,
+                                             dsd=bool(ctx.get(dut.no_scrambling_requested)) if cfgv else False))
+                await ctx.tick("ss")
+        self.sim.run(bench)
+        return traces
+
+
+EM_IDLE = {"start": False, "rdy": True, "hr": False, "lb": False, "ns": False, "rst": False}
 
 
 def ts_emitter_stim(rng, set_len, emit_n, bursts, has_cfg):
@@ -1479,7 +1583,8 @@ _TS_BENCHES = {}
 
 def classify_ts(trace, matched, status, meta):
     pattern = "other"
-    bench = _TS_BENCHES.get((meta.get("set"), meta.get("emit_n"), meta.get("det_n")))
+    bench = _TS_BENCHES.get((meta.get("set"), meta.get("emit_n"), meta.get("det_n"), meta.get("first_word_ctrl"),
+                             meta.get("include_config")))
     if bench is not None and status in ("det_spurious", "det_missing") and 0 < matched <= len(trace):
         last_void, run_adjacent = ts_replay(trace[:matched], bench, meta["det_n"])[-1]
         if status == "det_spurious" and last_void == "gap_foreign":
@@ -1512,35 +1617,90 @@ def check_C43(rep):
                        ({"SetWords": "TinyWords", "FirstCtrl": 15, "HasCfg": "TRUE", "EmitN": 3, "MaxStartLat": 1, "MaxBursts": 3}, "2-word set x3")]:
         _mc(rep, "MCTsEmitter", tlc.render_cfg(_cfg("MCTsEmitter.cfg.tmpl"), sub), "MCTsEmitter (%s)" % label, sub)
 
-    configs = [("TS2Words", 3, 2), ("TS2Words", 16, 8), ("TS1Words", 16, 8), ("TS1Words", 2, 3), ("TS1InvWords", 2, 8),
-               ("TSEQWords", 3, 32), ("TSEQWords", 2, 2), ("TSEQWords", 1, 1)]
-    if not quick:
-        configs += [("TS2Words", 5, 3), ("TS1Words", 1, 1), ("TSEQWords", 64, 4)]
-    for set_name, emit_n, det_n in configs:
-        bench = TsBench(set_name, emit_n, det_n)
-        _TS_BENCHES[(set_name, emit_n, det_n)] = bench
+    # (set, emitter burst, detector burst, first_word_ctrl override, include_config override)
+    configs = [("TS2Words", 3, 2, None, None), ("TS2Words", 16, 8, None, None), ("TS1Words", 16, 8, None, None),
+               ("TS1Words", 2, 3, None, None), ("TS1InvWords", 2, 8, None, None),
+               ("TSEQWords", 3, 32, None, None), ("TSEQWords", 2, 2, None, None), ("TSEQWords", 1, 1, None, None)]
+    # parameter classes beyond the library's own instances: burst lengths 1, 2^k, 2^k +- 1, large; a first_word_ctrl
+    # that is neither 1111 nor 0001; include_config on a TS1-shaped set and off on a TS2-shaped one; a 2-word set
+    pool = [("TS1Words", 7, 9, None, None), ("TS1Words", 9, 7, None, None), ("TS2Words", 17, 15, None, None),
+            ("TS2Words", 15, 17, None, None), ("TS1Words", 4, 4, 0b0011, None), ("TS1Words", 3, 2, None, True),
+            ("TS2Words", 2, 2, None, False), ("TinyWords", 33, 31, None, None), ("TinyWords", 1, 16, 0b0101, None),
+            ("TSEQWords", 5, 3, 0b1000, None), ("TS1Words", 1, 1, None, None), ("TS1InvWords", 8, 1, None, True)]
+    if quick:
+        k0 = (3 * rep.seed) % len(pool)
+        configs += [pool[(k0 + i) % len(pool)] for i in range(3)]          # rotated by seed
+    else:
+        configs += pool + [("TS2Words", 5, 3, None, None), ("TSEQWords", 64, 4, None, None),
+                           ("TinyWords", 65536, 4096, None, None)]
+    # the transceiver as the library instantiates it: all four detectors on one sink, bursts looped back
+    tb = TsTransceiverBench()
+    tviews = {name: [] for name, _, _ in tb.VIEWS}
+    for name, _, n_det in tb.VIEWS:
+        for _ in range(1 if quick else 4):
+            ws = ts_detector_stream(rng, tb.views[name], n_det, events=5, hazards=("adjacent", "gap_foreign"))
+            for vn, tr in tb.run([{"iw": w} for w in ws]).items():
+                tviews[vn].append((tr, {"dut": "TSTransceiver", "view": vn, "origin": "stream-for-" + name}))
+    for kind, sets, L in (("ts1", 16, 4), ("ts2", 16, 4), ("tseq", 40, 8)):
+        cfgbits = (rng.random() < 0.5, rng.random() < 0.5, rng.random() < 0.5)
+        p_stall = rng.choice([0.0, 0.3])
+        st = [{"iw": NOWORD}] + [{"loop": (kind,) + cfgbits, "rdy": rng.random() >= p_stall} for _ in range(int(sets * L * (1.6 if p_stall else 1.05)))]
+        st += [{"iw": NOWORD}] * 6
+        for vn, tr in tb.run(st).items():
+            tviews[vn].append((tr, {"dut": "TSTransceiver", "view": vn, "origin": "loop-" + kind}))
+    for name, _, n_det in tb.VIEWS:
+        rep.add_eval(sum(len(t) for t, _ in tviews[name]))
+        cfg = tlc.render_cfg(_cfg("TrainingSetsTrace.cfg.tmpl"),
+                             {"SetWords": name, "FirstCtrl": tb.views[name].ctrl,
+                              "HasCfg": "TRUE" if tb.views[name].has_cfg else "FALSE", "EmitN": 16, "DetN": n_det})
+        validate_group(rep, SPEC_DIR, "TrainingSetsTrace", cfg, tviews[name], what_prefix="TSTransceiver ", classify=_guard())
+        rep.nontriv(("transceiver", name, sum(r["det"] for t, _ in tviews[name] for r in t)))
+
+    for set_name, emit_n, det_n, ctrl_o, cfg_o in configs:
+        bench = TsBench(set_name, emit_n, det_n, ctrl_o, cfg_o)
+        _TS_BENCHES[(set_name, emit_n, det_n, bench.ctrl, bench.has_cfg)] = bench
         L = len(bench.set_words)
         items = []
-        n_tr = (3 if quick else 12)
+        extra_cfg = (set_name, emit_n, det_n, ctrl_o, cfg_o) in pool
+        n_tr = ((1 if extra_cfg else 3) if quick else (4 if extra_cfg else 12))
 
         def add(recs, origin):
             rep.add_eval(len(recs))
-            items.append((recs, {"set": set_name, "emit_n": emit_n, "det_n": det_n, "origin": origin}))
-            rep.nontriv((set_name, emit_n, det_n, origin, sum(r["det"] for r in recs), sum(r["done"] for r in recs)))
+            items.append((recs, {"set": set_name, "emit_n": emit_n, "det_n": det_n, "first_word_ctrl": bench.ctrl,
+                                 "include_config": bench.has_cfg, "origin": origin}))
+            rep.nontriv((set_name, emit_n, det_n, bench.ctrl, bench.has_cfg, origin, sum(r["det"] for r in recs),
+                         sum(r["done"] for r in recs)))
 
         def feed(ws, origin):
             add(bench.run([dict(EM_IDLE, iw=w) for w in ws]), origin)
+        def with_reset(lst, mk):
+            """Clock-domain reset asserted for one cycle somewhere mid-operation (both units return to idle)."""
+            if rng.random() < 0.35 and len(lst) > 6:
+                lst = list(lst)
+                lst.insert(rng.randrange(3, len(lst) - 2), mk())
+            return lst
+        if emit_n > 64 or det_n > 64:       # very long bursts: one burst looped into the detector, ready always
+            st = [dict(EM_IDLE), dict(EM_IDLE, start=True)] + [dict(EM_IDLE)] * (emit_n * L + 8)
+            add(bench.run(st, loop=True), "emitter->detector-long")
+            cfg = tlc.render_cfg(_cfg("TrainingSetsTrace.cfg.tmpl"),
+                                 {"SetWords": set_name, "FirstCtrl": bench.ctrl,
+                                  "HasCfg": "TRUE" if bench.has_cfg else "FALSE", "EmitN": emit_n, "DetN": det_n})
+            validate_group(rep, SPEC_DIR, "TrainingSetsTrace", cfg, items, classify=_guard(classify_ts),
+                           what_prefix="TSEmitter/TSBurstDetector ", timeout=1800)
+            continue
         for _ in range(n_tr):
             # emitter alone + looped into the detector
             st = ts_emitter_stim(rng, L, emit_n, bursts=rng.randrange(1, 4), has_cfg=bench.has_cfg)
-            add(bench.run(st, loop=True), "emitter->detector")
+            add(bench.run(with_reset(st, lambda: dict(EM_IDLE, rst=True)), loop=True), "emitter->detector")
             # detector on streams composed of whole sets of several kinds, gaps, stray words
-            feed(ts_detector_stream(rng, bench, det_n, events=rng.randrange(4, 10) if det_n <= 8 else 4,
-                                    hazards=("adjacent", "gap_foreign") if rng.random() < 0.5 else ()), "detector-stream")
+            ws = ts_detector_stream(rng, bench, det_n, events=rng.randrange(4, 10) if det_n <= 8 else 4,
+                                    hazards=("adjacent", "gap_foreign") if rng.random() < 0.5 else ())
+            st = with_reset([dict(EM_IDLE, iw=w) for w in ws], lambda: dict(EM_IDLE, iw=NOWORD, rst=True))
+            add(bench.run(st), "detector-stream")
         # runs of matching sets split by whole sets of another kind / near-miss sets, back to back and with idle
         # gaps between the sets:  a x M, b x other, (N - a) x M  must not be reported;  then N x M must be
         for kind in ["o"] + ["n%d" % k for k in range(0, L)] + ["f%d" % k for k in range(1, L)] + ["g%d" % k for k in range(1, L)]:
-            for gapped in (False, True):
+            for gapped in ((rng.random() < 0.5,) if (extra_cfg and quick) else (False, True)):
                 a = rng.randrange(1, det_n) if det_n > 1 else 1
                 ws = [NOWORD]
                 seq = ["m"] * a + [kind] * rng.choice([1, 2]) + ["m"] * (det_n - a if det_n > 1 else 0)
@@ -1570,9 +1730,9 @@ def check_C43(rep):
             feed(ws + [NOWORD] * 5, "witness-set-right-after-break")
             feed(ts_detector_stream(rng, bench, det_n, events=6, hazards=("adjacent", "gap_foreign")), "witness-stream")
         cfg = tlc.render_cfg(_cfg("TrainingSetsTrace.cfg.tmpl"),
-                             {"SetWords": set_name, "FirstCtrl": TS_SETS[set_name][1],
+                             {"SetWords": set_name, "FirstCtrl": bench.ctrl,
                               "HasCfg": "TRUE" if bench.has_cfg else "FALSE", "EmitN": emit_n, "DetN": det_n})
-        validate_group(rep, SPEC_DIR, "TrainingSetsTrace", cfg, items, classify=classify_ts,
+        validate_group(rep, SPEC_DIR, "TrainingSetsTrace", cfg, items, classify=_guard(classify_ts),
                        what_prefix="TSEmitter/TSBurstDetector ")
         if items and len(rep.samples) < 3:
             rep.sample({"config": items[0][1], "records": [r for r in items[0][0] if r["ow"]["v"] or r["det"]][:6]})
@@ -1586,17 +1746,20 @@ class IdleBench:
         use_repo()
         from luna.gateware.usb.usb3.link.idle import IdleHandshakeHandler
         self.dut = IdleHandshakeHandler()
-        self.sim = StepSim(self.dut)
+        top, self.rst = with_ss_domain(self.dut)
+        self.sim = StepSim(top)
 
-    def run(self, stim):
+    def run(self, stim, reset_at=()):
         dut = self.dut
         recs = []
 
         async def bench(ctx):
-            for en, w in stim:
+            for i, (en, w) in enumerate(stim):
+                ctx.set(self.rst, int(i in reset_at))
                 ctx.set(dut.enable, int(en))
                 set_word(ctx, dut.sink, w)
-                recs.append({"en": bool(en), "iw": w, "cpl": bool(ctx.get(dut.idle_handshake_complete))})
+                recs.append({"en": bool(en), "iw": w, "cpl": bool(ctx.get(dut.idle_handshake_complete)),
+                             "rst": i in reset_at})
                 await ctx.tick("ss")
         self.sim.run(bench)
         return recs
@@ -1649,7 +1812,8 @@ class TimersBench:
         use_repo()
         from luna.gateware.usb.usb3.link.timers import LinkMaintenanceTimers
         self.dut = LinkMaintenanceTimers(ss_clock_frequency=freq)
-        self.sim = StepSim(self.dut)
+        top, self.rst = with_ss_domain(self.dut)
+        self.sim = StepSim(top)
 
     def run(self, script, rng):
         """script: list of events {"dt": quiet cycles before, "en", "rx", "pkt", "tx"} (inputs of one cycle);
@@ -1661,15 +1825,16 @@ class TimersBench:
             en = 0
             pending_tx = None
 
-            def cycle(rx=0, pkt=0, tx=0):
+            def cycle(rx=0, pkt=0, tx=0, rst=0):
+                ctx.set(self.rst, rst)
                 ctx.set(dut.enable, en)
                 ctx.set(dut.link_command_received, rx)
                 ctx.set(dut.packet_received, pkt)
                 ctx.set(dut.link_command_transmitted, tx)
-                r = {"n": 1, "en": bool(en), "rx": bool(rx), "pkt": bool(pkt), "tx": bool(tx),
+                r = {"n": 1, "en": bool(en), "rx": bool(rx), "pkt": bool(pkt), "tx": bool(tx), "rst": bool(rst),
                      "ka": bool(ctx.get(dut.schedule_keepalive)), "rec": bool(ctx.get(dut.transition_to_recovery))}
                 if recs and recs[-1]["n"] >= 1 and all(recs[-1][k] == r[k] for k in ("en", "rx", "pkt", "tx", "ka", "rec")) \
-                        and not (r["rx"] or r["pkt"] or r["tx"] or r["ka"] or r["rec"]):
+                        and not (r["rx"] or r["pkt"] or r["tx"] or r["ka"] or r["rec"] or r["rst"] or recs[-1]["rst"]):
                     recs[-1]["n"] += 1
                 else:
                     recs.append(r)
@@ -1688,7 +1853,7 @@ class TimersBench:
                     await ctx.tick("ss")
                 if "en" in ev:
                     en = int(ev["en"])
-                r = cycle(rx=int(ev.get("rx", 0)), pkt=int(ev.get("pkt", 0)), tx=int(ev.get("tx", 0)))
+                r = cycle(rx=int(ev.get("rx", 0)), pkt=int(ev.get("pkt", 0)), tx=int(ev.get("tx", 0)), rst=int(ev.get("rst", 0)))
                 if r["ka"] and ev.get("answer") is not None:
                     pending_tx = ev["answer"]
                 await ctx.tick("ss")
@@ -1702,7 +1867,7 @@ def timers_script(rng, K, R, length):
     sc = [{"dt": rng.randrange(0, 3), "en": True}]
     t = 0
     while t < length:
-        kind = rng.choice(["tx_near_K", "rx_near_R", "answering", "silence_R", "disable", "burst", "pkt_near_R"])
+        kind = rng.choice(["tx_near_K", "rx_near_R", "answering", "silence_R", "disable", "burst", "pkt_near_R", "reset"])
         ans = rng.choice([0, 0, 1, 2, 5, None])
         if kind == "tx_near_K":
             dt = max(0, K + rng.choice([-3, -2, -1, 0, 1, 2, 5]))
@@ -1716,6 +1881,8 @@ def timers_script(rng, K, R, length):
             sc.append({"dt": R + rng.randrange(2, 12), "answer": rng.choice([0, 1, None])})
             sc.append({"dt": 0, "en": False})
             sc.append({"dt": rng.randrange(0, 4), "en": True, "rx": rng.randrange(2)})
+        elif kind == "reset":        # clock-domain reset mid-count: both timers start over
+            sc.append({"dt": rng.choice([rng.randrange(0, K + 2), max(0, R - rng.randrange(1, 5))]), "rst": 1, "answer": ans})
         elif kind == "disable":
             sc.append({"dt": rng.randrange(0, K + 2), "en": False, "tx": rng.randrange(2), "rx": rng.randrange(2)})
             sc.append({"dt": rng.randrange(0, 4), "en": True})
@@ -1761,7 +1928,7 @@ def check_C44(rep):
     ib = IdleBench()
     clean, witness = [], []
     for k in range(30 if quick else 200):
-        recs = ib.run(idle_stim(rng, 120, clean=True))
+        recs = ib.run(idle_stim(rng, 120, clean=True), reset_at=set(rng.sample(range(5, 115), rng.choice([0, 1, 2]))))
         rep.add_eval(len(recs))
         clean.append((recs, {"dut": "IdleHandshakeHandler", "class": "clean"}))
         rep.nontriv(("idle", "clean", sum(1 for a, b in zip(recs, recs[1:]) if b["cpl"] and not a["cpl"])))
@@ -1772,6 +1939,12 @@ def check_C44(rep):
             recs = ib.run(st)
             rep.add_eval(len(recs))
             clean.append((recs, {"dut": "IdleHandshakeHandler", "class": "clean-structured"}))
+    # clock-domain reset after the handshake completed, enable held: it must be earned again from scratch
+    for k in (0, 1, 3, 6):
+        st = [(True, word(7, 0))] + [(True, IDLEW)] * 3 + [(True, word(9, 0))] * (k + 2)
+        recs = ib.run(st + [(True, word(9, 0))] * 8 + [(True, IDLEW)] * 3, reset_at={len(st) - 1})
+        rep.add_eval(len(recs))
+        clean.append((recs, {"dut": "IdleHandshakeHandler", "class": "clean-reset-after-complete"}))
     for k in range(10 if quick else 60):
         recs = ib.run(idle_stim(rng, 60, clean=False))
         rep.add_eval(len(recs))
@@ -1782,15 +1955,20 @@ def check_C44(rep):
         rep.add_eval(len(recs))
         witness.append((recs, {"dut": "IdleHandshakeHandler", "class": "witness-reset-value"}))
     cfg = _cfg("IdleHandshakeTrace.cfg.tmpl")
-    validate_group(rep, SPEC_DIR, "IdleHandshakeTrace", cfg, clean, classify=classify_idle, what_prefix="(clean stimuli) ")
-    validate_group(rep, SPEC_DIR, "IdleHandshakeTrace", cfg, witness, classify=classify_idle)
+    validate_group(rep, SPEC_DIR, "IdleHandshakeTrace", cfg, clean, classify=_guard(classify_idle), what_prefix="(clean stimuli) ")
+    validate_group(rep, SPEC_DIR, "IdleHandshakeTrace", cfg, witness, classify=_guard(classify_idle))
     ncpl = sum(1 for t, _ in clean for a, b in zip(t, t[1:]) if b["cpl"] and not a["cpl"])
     rep.notes.append("idle handshakes completed in clean traces: %d" % ncpl)
     if ncpl == 0:
         raise tlc.TLCError("vacuous: the idle handshake never completed in any clean trace")
 
     # ---- link maintenance timers ---------------------------------------------------------------------------
-    clocks = [(1e6, 6), (3e6, 3), (0.7e6, 3)] + ([(125e6, 1)] if quick else [(125e6, 1), (10e6, 2)])      # thorough runs 3x as many traces per clock
+    # ss_clock_frequency classes: cycle counts at powers of two and 2^k +- 1 (keepalive 2, 8, 16, 7, 9, 15, 17; recovery
+    # 512, 1024, 2048, 511, 513, 1023, 1025), rotated by seed in quick, all in thorough
+    fpool = [0.2e6, 0.8e6, 1.6e6, 0.9e6, 1.5e6, 1.7e6, 0.512e6, 1.024e6, 2.048e6, 0.511e6, 0.513e6, 1.023e6, 1.025e6]
+    k0 = (2 * rep.seed) % len(fpool)
+    extra = [(fpool[(k0 + i) % len(fpool)], 2) for i in range(2)] if quick else [(f, 1) for f in fpool]
+    clocks = extra + [(1e6, 4 if quick else 6), (3e6, 3), (0.7e6, 3)] + ([(125e6, 1)] if quick else [(125e6, 1), (10e6, 2)])      # thorough runs 3x as many traces per clock
     nka = nrec = 0
     for freq, ntr in clocks:
         K = int(10 * freq) // 10 ** 6            # 10 us and 1 ms in cycles (from the property, not from the module)
@@ -1806,7 +1984,7 @@ def check_C44(rep):
             rep.nontriv(("timers", freq, sum(r["ka"] for r in recs), sum(r["rec"] for r in recs)))
         cfg = tlc.render_cfg(_cfg("LinkTimersTrace.cfg.tmpl"), {"KeepCycles": K, "RecCycles": R})
         validate_group(rep, SPEC_DIR, "LinkTimersTrace", cfg, items, steps_of=lambda t: len(t),
-                       what_prefix="LinkMaintenanceTimers ")
+                       what_prefix="LinkMaintenanceTimers ", classify=_guard())
         if len(rep.samples) < 4:
             rep.sample({"clock_hz": freq, "KeepCycles": K, "RecCycles": R, "records": items[0][0][:8]})
     rep.notes.append("keepalives scheduled: %d, recovery requests: %d in validated timer traces" % (nka, nrec))
